@@ -57,7 +57,10 @@ def judge(pre, op, post, res, obs, meta):
             V("readonly-write-event", f"{ops.label(op)} (exit {res.exit}) issued write-type operations: {wr[:5]}", ev=wr[0][0])
         return v
     if name == "flatten":
-        bad = [(p, w) for p, w in diffs if not (p == "dest" or p.startswith("dest/"))]
+        d = o.get("dest", "")
+        allowed = "dest" if d.startswith("{dest}") else "cwd/" + d.split("/")[0]   # relative: below the working directory
+        bad = [(p, w) for p, w in diffs if not (p == allowed or p.startswith(allowed + "/") or
+                                                (p == "cwd" and w == "mtime" and allowed.startswith("cwd/")))]
         if bad:
             V("flatten-outside-destination", f"{ops.label(op)} (exit {res.exit}) changed outside its destination: {bad[:6]}",
               what=bad[0][1])
@@ -188,7 +191,8 @@ def command_forms(tree):
          ["info", {"root": None, "sf": ["d/c.txt"]}], ["info", {"root": "", "sf": ["d/c.txt"], "v": True}],
          ["hash", {"file": "a.txt", "h": "md5"}], ["hash", {"file": "d/c.txt", "h": "c4"}],
          ["flatten", {"root": "", "dest": "{dest}"}], ["flatten", {"root": "", "dest": "{dest}/sub"}],
-         ["flatten", {"root": "d", "dest": "{dest}"}],
+         ["flatten", {"root": "d", "dest": "{dest}"}], ["flatten", {"root": "", "dest": "out_rel"}],
+         ["flatten", {"root": "", "dest": "out_rel/deeper"}],
          c("", ["xxh64"]), c("", ["xxh64"], v=True), c("", ["xxh64"], sf=["a.txt"], v=True), c("", ["md5", "c4"], n=True), c("", ["xxh64"], dr=True), c("", ["xxh64"], i=["*.txt"]),
          c("", ["xxh64"], sf=["a.txt"]), c("", ["xxh64"], sf=["d/c.txt"]), c("", ["xxh64"], sf=["d"]), c("d", ["sha1"]),
          c("d/e", ["xxh3"]), c("emp", ["xxh64"]), c("", ["xxh64"], extra=["--author_name", "X", "--comment", "c"])]
